@@ -2,6 +2,7 @@ SPECIFICATION WSpec
 CONSTANTS
   Days = {1, 2, 3}
   TimedDays = {1, 2}
+  MissingDays = {}
   Hours = {6, 12}
   MaxQ = 4
 CONSTRAINT Emit
